@@ -265,6 +265,8 @@ package types
 
 //@ property C08 := (OrderID).Validate#*, (MsgCreateBid).ValidateBasic#*, (Order).Price#*, (Order).MatchRequirements#*, (Order).MatchAttributes#*
 //@ property C05 := EscrowAccountForBid#*, EscrowPaymentForLease#*, LeaseIDFromEscrowAccount#*
+// C06: the escrow hooks act on the record that the closed payment names - the id mapping must not send them elsewhere
+//@ property C06 := EscrowPaymentForLease#*, LeaseIDFromEscrowAccount#*
 //@ property C04 := EscrowAccountForBid#*, (Order).ID#*, (Bid).ID#*, (Lease).ID#*, MakeOrderID#*, (OrderID).GroupID#*, (OrderID).Equals#*, MakeBidID#*, (BidID).Equals#*, (BidID).LeaseID#*,
 //@                 (BidID).OrderID#*, (BidID).GroupID#*, (BidID).DeploymentID#*, MakeLeaseID#*, (LeaseID).Equals#*, (LeaseID).BidID#*, (LeaseID).OrderID#*,
 //@                 (LeaseID).GroupID#*, (LeaseID).DeploymentID#*, (Order).ValidateCanBid#*, (Order).ValidateInactive#*,
